@@ -196,10 +196,13 @@ func (a *analysis) oracleC04() verdict {
 	sc := a.sc
 	if sc.Mode == "none" {
 		a.rr.mu.Lock()
-		n := len(a.rr.outs)
+		n := 0
+		for _, o := range a.rr.outs {
+			n += len(o.B)
+		}
 		a.rr.mu.Unlock()
 		if n > 0 {
-			return a.fv("output-without-refresh", "non-terminal output, neither auto nor manual refresh requested, yet %d writes reached the output", n)
+			return a.fv("output-without-refresh", "non-terminal output, neither auto nor manual refresh requested, yet %d bytes reached the output", n)
 		}
 		return held(len(sc.Bars) > 0)
 	}
